@@ -202,10 +202,12 @@ type c17UDPCase struct {
 	RD      bool   `json:"rewrite_domain"`
 	Addr    string `json:"req_addr"`
 	Note    string `json:"note,omitempty"`
+	Tail    []byte `json:"tail_in_capacity,omitempty"` // bytes that sit behind the datagram in the same buffer (cap > len)
 }
 
 type c17UDPResult struct {
 	clauseID string
+	key      string
 	detail   string
 	hooked   bool
 	rewrote  bool
@@ -222,9 +224,12 @@ func c17RunUDP(c *c17UDPCase) (res c17UDPResult) {
 
 func c17RunUDPInner(c *c17UDPCase) (res c17UDPResult) {
 	saved := append([]byte(nil), c.Data...)
-	// the slice the server would forward next: fresh, cap == len
-	data := make([]byte, len(c.Data))
-	copy(data, c.Data)
+	// the slice the server would forward next: fresh, cap == len - or, with Tail, the front of a larger
+	// buffer whose remainder must be neither read (destination) nor written
+	buf := make([]byte, len(c.Data)+len(c.Tail))
+	copy(buf, c.Data)
+	copy(buf[len(c.Data):], c.Tail)
+	data := buf[:len(c.Data):len(buf)]
 	sn := &Sniffer{RewriteDomain: c.RD, UDPPorts: c17Filter(c.Filter, c.Addr), TCPPorts: utils.PortUnion{{Start: 1, End: 1}}}
 	fail := func(id, format string, a ...any) c17UDPResult {
 		res.clauseID, res.detail = id, fmt.Sprintf(format, a...)
@@ -252,7 +257,13 @@ func c17RunUDPInner(c *c17UDPCase) (res c17UDPResult) {
 				}
 			}
 		}
+		if c.Kind == "sample" {
+			res.key = fmt.Sprintf("changed=%d/%d", changed, len(saved))
+		}
 		return fail("datagram-modified", "the datagram that is forwarded next was modified by the hook: %d of %d bytes changed, first at offset %d (sent %s, now %s)", changed, len(saved), first, c17Hex(saved), c17Hex(data))
+	}
+	if !bytes.Equal(buf[len(c.Data):], c.Tail) {
+		return fail("buffer-tail-modified", "bytes behind the datagram in the same buffer (cap > len) were modified")
 	}
 	tc := &c17TCPCase{Addr: c.Addr, Filter: c.Filter, RD: c.RD}
 	if hooked != c17WantHooked(tc) {
@@ -270,6 +281,9 @@ func c17RunUDPInner(c *c17UDPCase) (res c17UDPResult) {
 		return fail("error-aborts-flow", "UDP returned error %q: the session is refused", err)
 	}
 	// (2) destination
+	if c.Kind == "sample" {
+		res.key = "dest=" + addr
+	}
 	_, newPort, perr := net.SplitHostPort(addr)
 	if perr != nil {
 		return fail("destination-malformed", "destination %q -> %q is no longer host:port (%v)", c.Addr, addr, perr)
@@ -290,9 +304,10 @@ func c17RunUDPInner(c *c17UDPCase) (res c17UDPResult) {
 	return res
 }
 
-func c17UDPSig(c *c17UDPCase, id string) string {
-	h := sha256.Sum256(c.Data)
-	return fmt.Sprintf("udp/%s/%s/%s/%s/len=%d,sha=%x,filter=%s,rd=%v,addr=%s", c.Kind, c.Name, id, c.Note, len(c.Data), h[:4], c.Filter, c.RD, c.Addr)
+// c17UDPSig: family + sample + violated clause + outcome (one defect seen through many truncations/corruptions is
+// one signature; the replay file holds one complete datagram).
+func c17UDPSig(c *c17UDPCase, r *c17UDPResult) string {
+	return fmt.Sprintf("udp/%s/%s/%s/%s", c.Kind, c.Name, r.clauseID, r.key)
 }
 
 // ---------------------------------------------------------------------------------------------
@@ -315,7 +330,7 @@ func c17EnumerateUDP(sh *evidence.Shard) {
 		if r.clauseID != "" {
 			if lim.ok(c.Kind + "/" + c.Name + "/" + r.clauseID) {
 				cc := *c
-				sh.Violate(p.Name, c17UDPSig(c, r.clauseID), r.detail, &cc)
+				sh.Violate(p.Name, c17UDPSig(c, &r), r.detail, &cc)
 			} else {
 				p.Count("further_violations_not_recorded", 1)
 			}
@@ -351,7 +366,7 @@ func c17EnumerateUDP(sh *evidence.Shard) {
 
 	// (2) every truncation of every sample
 	p2 := sh.Part("udp-truncations", "enum")
-	p2.Alphabet = map[string]any{"samples": names, "truncation": "every length 0..len-1", "configs": "nil filter, RewriteDomain, IPv4 destination; lengths around the packet end also with every hooked configuration"}
+	p2.Alphabet = map[string]any{"samples": names, "truncation": "every length 0..len-1, as a fresh cap==len slice and as the front of a buffer that holds the rest of the packet behind len", "configs": "nil filter, RewriteDomain, IPv4 destination; lengths around the packet end also with every hooked configuration"}
 	for _, s := range samples {
 		for l := 0; l < len(s.Data); l++ {
 			if !mine() {
@@ -372,6 +387,11 @@ func c17EnumerateUDP(sh *evidence.Shard) {
 				shape = fmt.Sprintf("end-%d", s.PktEnd-l)
 			}
 			run1(p2, c, shape)
+			// same truncation as the front of the buffer that still holds the rest of the packet behind len
+			c2 := *c
+			c2.Tail = s.Data[l:]
+			c2.Note += ",rest-in-capacity"
+			run1(p2, &c2, shape+"+cap")
 		}
 	}
 
@@ -467,7 +487,7 @@ func c17EnumerateUDP(sh *evidence.Shard) {
 									d = append(d, bytes.Repeat([]byte{fill}, bl)...)
 									c := &c17UDPCase{Kind: "product", Name: "long-header", Data: d, Filter: primary.Filter, RD: primary.RD, Addr: net.JoinHostPort(primary.Host, "443"),
 										Note: fmt.Sprintf("fb=%02x,ver=%x,dcil=%d,scil=%d,tok=%d,len=%d,body=%d,fill=%02x", fb, ver, dl, sl, ti, li, bl, fill)}
-									run1(p4, c, fmt.Sprintf("%02x|%x|%d|%d|%d|%d|%d", fb, ver, dl, sl, ti, li, bl))
+									run1(p4, c, fmt.Sprintf("%02x|%x|%d|%d|%d|%d", fb, ver, dl, sl, ti, li))
 								}
 							}
 						}
